@@ -238,6 +238,9 @@ func (w *World) trackAfter(line M) {
 			if m["term"] == "STOPPED_BY_RM" {
 				if a, ok := w.sAsks[m["key"].(string)]; ok && a.App == m["app"] {
 					delete(w.sAsks, m["key"].(string))
+					if gs(line, "op") != "release" && len(w.goneKeys) < 64 {
+						w.goneKeys = append(w.goneKeys, [2]string{a.App, a.Key})
+					}
 				}
 			}
 		case "appState":
